@@ -127,6 +127,50 @@ def prove(prop):
     return info
 
 
+GEN_SOURCES = ["pyp0f/fingerprint/tcp.py", "pyp0f/net/signatures/tcp.py", "pyp0f/fingerprint/results/uptime.py", "pyp0f/fingerprint/results/tcp.py",
+               "pyp0f/net/packet.py", "pyp0f/net/quirks.py", "pyp0f/net/layers/ip.py", "pyp0f/net/layers/tcp/tcp.py", "pyp0f/net/layers/tcp/flags.py",
+               "pyp0f/database/parse/wildcard.py"]
+GEN_THEOREMS = ["gen_divisors_eq", "gen_win_multi_eq", "gen_tcp_signatures_match_eq", "gen_round_frequency_eq", "gen_guess_distance_eq", "gen_should_fingerprint_eq"]
+
+
+def gen_tie():
+    """Regenerate Gallina from /repo's current source (translate/py2coq.py) and re-check that it equals the hand-written
+    models (coq/Gen/GenP.v).  Cached on the content of the sources, the translator, the models and the proof file."""
+    h = hashlib.sha1()
+    files = [REPO / f for f in GEN_SOURCES] + [VERIF / "translate" / "py2coq.py", COQ / "Gen" / "GenP.v", COQ / "Model" / "Matcher.v",
+                                               COQ / "Model" / "Select.v", COQ / "Model" / "Uptime.v", COQ / "Model" / "Sig.v", COQ / "Model" / "Bits.v"]
+    for f in files:
+        h.update(f.read_bytes() if f.exists() else b"<missing>")
+    key = h.hexdigest()
+    WORK.mkdir(exist_ok=True)
+    cache = WORK / "gen_tie.json"
+    if cache.exists():
+        try:
+            c = json.load(open(cache))
+            if c.get("key") == key and (COQ / "Gen" / "GenP.vo").exists():
+                return c["result"]
+        except Exception:
+            pass
+    res = {"ok": False, "obligations": len(GEN_THEOREMS), "discharged": 0, "theorems": GEN_THEOREMS, "detail": ""}
+    rc, out = sh("%s %s %s %s" % (PY, VERIF / "translate" / "py2coq.py", REPO, COQ / "Gen" / "Generated.v"), 120)
+    if rc != 0:
+        res["detail"] = "translator: " + out.strip()[-400:]
+    else:
+        for ext in (".vo", ".vok", ".vos", ".glob"):
+            for n in ("Generated", "GenP"):
+                q = COQ / "Gen" / (n + ext)
+                if q.exists():
+                    q.unlink()
+        rc, out = sh("timeout 600 coqc -Q . PV Gen/Generated.v && timeout 900 coqc -Q . PV Gen/GenP.v", 1600, cwd=COQ)
+        if rc == 0 and out.count("Closed under the global context") == len(GEN_THEOREMS):
+            res["ok"] = True
+            res["discharged"] = len(GEN_THEOREMS)
+        else:
+            res["detail"] = "Gen/GenP.v no longer checks (the generated definition differs from the model): " + out.strip()[-600:]
+    json.dump({"key": key, "result": res}, open(cache, "w"))
+    return res
+
+
 # --------------------------------------------------------------------------- model side
 
 def run_model(lines):
@@ -237,6 +281,17 @@ def run_check(prop, tier, replay=None):
                  "obligations": 1, "discharged": 0, "axioms": [], "theorems": [], "checker_cmd": "grep"}
     else:
         proof = prove(prop)
+        if getattr(mod, "GEN_TIE", False):
+            g = gen_tie()
+            proof["obligations"] += g["obligations"]
+            proof["discharged"] += g["discharged"]
+            proof["theorems"] = proof.get("theorems", []) + ["Gen/GenP.v:" + t for t in g["theorems"]]
+            proof["checker_cmd"] = proof.get("checker_cmd", "") + " && translate/py2coq.py /repo coq/Gen/Generated.v && coqc Gen/Generated.v Gen/GenP.v"
+            proof["gen_tie"] = g
+            if not g["ok"] and proof["ok"]:
+                proof["ok"] = False
+                proof["broken"] = "code-to-model equivalence (translator + Gen/GenP.v): " + g["detail"]
+                proof["log"] = g["detail"]
 
     rng = Rng("%s/%s/%d" % (prop, tier, seed))
     model_available = ok or (OCAML / "driver").exists()
